@@ -2,7 +2,8 @@
 
 A network is a JSON-able node list in topological order; node i refers to earlier nodes by index:
   {'k':'in','c':C,'hw':H}                      ('dim':1 -> Conv1d network on (C,H) inputs; default 2-D on (C,H,H))
-  {'k':'conv','src':i,'cin':..,'cout':..,'ks':1|3|5,'stride':1|2,'bias':bool}   full Conv2d (padding ks//2)
+  {'k':'conv','src':i,'cin':..,'cout':..,'ks':1|3|5,'stride':1|2,'bias':bool}   full conv (padding ks//2; optional 'pad': int|'same'|'valid',
+                                                                                'pm': padding_mode 'circular'|'reflect'|'replicate')
   {'k':'dw','src':i,'c':..,'ks':3,'bias':bool}                                 depthwise Conv2d
   {'k':'bn','src':i,'c':..,'dim':1|2}                                          BatchNorm (directly after conv/dw/lin: fused by MPS)
   {'k':'relu','src':i,'fn':bool}                                               nn.ReLU module / torch.relu
@@ -17,7 +18,7 @@ import random
 from .common import Nat, Raw, coq
 
 
-def gen_spec(rng, ne16=False, max_blocks=4, first=None, dim=2):
+def gen_spec(rng, ne16=False, max_blocks=4, first=None, dim=2, padmodes=False):
     """derive a network.  ne16=True restricts kernels to {1,3} (NE16 cost model).  `first` forces the
     first block kind ('dw', 'addin', ...) so that rare producer->consumer pairs are always reached."""
     cin = rng.randint(2 if ne16 else 1, 4)    # a 1->1 conv. is depthwise for the library; NE16 models only 3x3 depthwise
@@ -26,13 +27,26 @@ def gen_spec(rng, ne16=False, max_blocks=4, first=None, dim=2):
     st = {'cur': 0, 'c': cin, 'hw': hw}
 
     def push(nd):
+        if padmodes and nd['k'] in ('conv', 'dw'):
+            # every padding_mode x padding > 0, string paddings where legal ('same': stride 1; 'valid': plain conv)
+            if st['hw'] >= 3 and rng.random() < 0.45:
+                nd['pm'] = rng.choice(['circular', 'reflect', 'replicate'])
+            r_ = rng.random()
+            if r_ < 0.25 and nd.get('stride', 1) == 1:
+                nd['pad'] = 'same'
+            elif r_ < 0.35 and nd.get('valid_ok') and nd['ks'] > 1 and st['hw'] - nd['ks'] + 1 >= 2:
+                nd['pad'] = 'valid'
+            nd.pop('valid_ok', None)
         nodes.append(nd)
         st['cur'] = len(nodes) - 1
         return st['cur']
 
-    def conv(src, cout, ks=None, stride=1):
+    def conv(src, cout, ks=None, stride=1, valid_ok=False):
         ks = ks or rng.choice([1, 3, 3] if ne16 else [1, 3, 3, 5])
-        return push({'k': 'conv', 'src': src, 'cin': st['c'], 'cout': cout, 'ks': ks, 'stride': stride, 'bias': rng.random() < 0.7})
+        nd = {'k': 'conv', 'src': src, 'cin': st['c'], 'cout': cout, 'ks': ks, 'stride': stride, 'bias': rng.random() < 0.7}
+        if valid_ok and padmodes:
+            nd['valid_ok'] = True
+        return push(nd)
 
     def tail(c, bdim=None, p_bn=0.4, p_relu=0.6):
         if rng.random() < p_bn:
@@ -47,10 +61,9 @@ def gen_spec(rng, ne16=False, max_blocks=4, first=None, dim=2):
         if kind == 'conv':
             stride = 2 if (st['hw'] >= 4 and st['hw'] % 2 == 0 and rng.random() < 0.25) else 1
             co = rng.randint(2, 6)
-            conv(st['cur'], co, stride=stride)
+            j_ = conv(st['cur'], co, stride=stride, valid_ok=True)
             st['c'] = co
-            if stride == 2:
-                st['hw'] //= 2
+            st['hw'] = (st['hw'] + 2 * pad_of(nodes[j_]) - nodes[j_]['ks']) // stride + 1
             tail(co)
         elif kind == 'dw':
             push({'k': 'dw', 'src': st['cur'], 'c': c, 'ks': 3, 'bias': rng.random() < 0.7})
@@ -119,6 +132,12 @@ def kind(nd):
     return 'dw' if is_dw(nd) else nd['k']
 
 
+def pad_of(nd):
+    """numeric padding per side of a conv / depthwise node ('same' only with odd kernels and stride 1)"""
+    pd = nd.get('pad', nd['ks'] // 2)
+    return nd['ks'] // 2 if pd == 'same' else 0 if pd == 'valid' else pd
+
+
 def shapes(nodes):
     """static (channels, hw) of every node's output (hw = 0 after flatten)"""
     out = []
@@ -128,7 +147,7 @@ def shapes(nodes):
             out.append((nd['c'], nd['hw']))
         elif k == 'conv':
             c, hw = out[nd['src']]
-            out.append((nd['cout'], (hw + 2 * (nd['ks'] // 2) - nd['ks']) // nd['stride'] + 1))
+            out.append((nd['cout'], (hw + 2 * pad_of(nd) - nd['ks']) // nd['stride'] + 1))
         elif k == 'dw':
             out.append(out[nd['src']])
         elif k in ('bn', 'relu'):
@@ -162,9 +181,11 @@ def build(nodes, seed):
                 k = nd['k']
                 m = None
                 if k == 'conv':
-                    m = Conv(nd['cin'], nd['cout'], nd['ks'], stride=nd['stride'], padding=nd['ks'] // 2, bias=nd['bias'])
+                    m = Conv(nd['cin'], nd['cout'], nd['ks'], stride=nd['stride'], padding=nd.get('pad', nd['ks'] // 2), bias=nd['bias'],
+                             padding_mode=nd.get('pm', 'zeros'))
                 elif k == 'dw':
-                    m = Conv(nd['c'], nd['c'], nd['ks'], padding=nd['ks'] // 2, groups=nd['c'], bias=nd['bias'])
+                    m = Conv(nd['c'], nd['c'], nd['ks'], padding=nd.get('pad', nd['ks'] // 2), groups=nd['c'], bias=nd['bias'],
+                             padding_mode=nd.get('pm', 'zeros'))
                 elif k == 'bn':
                     m = nn.BatchNorm2d(nd['c']) if nd['dim'] == 2 else nn.BatchNorm1d(nd['c'])
                 elif k == 'relu' and not nd['fn']:
